@@ -10,10 +10,12 @@ BASE_TRUST = [
 PROPS = {
     "C14": {
         "props_module": "RedbModel.Props.C14",
-        "streams": [("alloc", [], "alloc")],
+        "streams": [("alloc", [], "alloc"), ("history", ["--focus", "c14"], "history")],
         "rule": "cases = (a) every op sequence of fixed depth over a small alphabet for all capacities/initial sizes up to a bound, "
                 "(b) random contract-respecting programs (alloc/alloc_lowest/free/record_alloc incl. malformed/resize/serialize round trip); "
-                "a case is distinct by the hash of its request+answer lines and non-trivial if at least one allocation succeeded",
+                "a case is distinct by the hash of its request+answer lines and non-trivial if at least one allocation succeeded; second stream (region level): whole-database "
+                "histories with 64 KiB regions that grow over several regions, free, shrink (compaction / close) and grow again; after every step the allocator state and the "
+                "region tracker are read through the snapshot hook: a region with a free block is never reported full, a region that does not exist is never offered, exact page accounting",
         "trusted_base": BASE_TRUST + ["modelled, not verified: buddy_allocator.rs, bitmap.rs (leaf level exact; 64-way summary levels only through to_vec bytes)"],
         "assumptions": ["client contract of the allocator: free() only for blocks handed out and not yet freed; resize never below a live block"],
         "explanation": "Lean theorems (invariant preservation, alloc soundness/completeness, free/record_alloc specs) about the model; "
